@@ -60,6 +60,15 @@ def partition_problems(string, parts):
             if off != len(rec):
                 return [('line-offset', 'part %d records line_offset=%r but its first line is line %d' % (pi, off, len(rec)))]
             ol = p.orig_lines if p.orig_lines is not None else ['>>> ' + ln for ln in p.exec_lines]
+            # the executable lines are the original lines without their four-character prompt
+            el = getattr(p, 'exec_lines', None)
+            if p.orig_lines is not None and el is not None:
+                if len(el) != len(ol):
+                    return [('exec-lines', 'part %d has %d original lines but %d executable lines' % (pi, len(ol), len(el)))]
+                for a_, b_ in zip(ol, el):
+                    if a_[4:] != b_:
+                        return [('exec-lines', 'part %d: executable line %r is not the original line %r without its prompt' % (
+                            pi, b_, a_))]
             rec.extend(('src', ln, pi) for ln in ol)
             rec.extend(('want', ln, pi) for ln in (p.want_lines or []))
     got = list(rec)
